@@ -9,6 +9,7 @@ import (
 	"github.com/tetratelabs/wazero/internal/leb128"
 	"github.com/tetratelabs/wazero/internal/testing/dwarftestdata"
 	"github.com/tetratelabs/wazero/internal/wasm"
+	"github.com/tetratelabs/wazero/verifharness/allops"
 	"github.com/tetratelabs/wazero/verifharness/wb"
 )
 
@@ -18,17 +19,17 @@ type call struct {
 }
 
 type prog struct {
-	Name    string `json:"name"`
-	Kind    string `json:"kind"`
-	Bin     []byte `json:"-"`
-	BinHex  string `json:"bin_hex,omitempty"`
-	Limit   uint32 `json:"memory_limit_pages"`
-	Calls   []call `json:"calls"`
-	WASI    bool   `json:"wasi,omitempty"`
-	NFuncs  int    `json:"local_functions"`
-	MemMin  uint32 `json:"mem_min,omitempty"`
-	MemMax  *uint32 `json:"mem_max,omitempty"`
-	HasMem  bool   `json:"has_memory,omitempty"`
+	Name    string   `json:"name"`
+	Kind    string   `json:"kind"`
+	Bin     []byte   `json:"-"`
+	BinHex  string   `json:"bin_hex,omitempty"`
+	Limit   uint32   `json:"memory_limit_pages"`
+	Calls   []call   `json:"calls"`
+	WASI    bool     `json:"wasi,omitempty"`
+	NFuncs  int      `json:"local_functions"`
+	MemMin  uint32   `json:"mem_min,omitempty"`
+	MemMax  *uint32  `json:"mem_max,omitempty"`
+	HasMem  bool     `json:"has_memory,omitempty"`
 	Globals []string `json:"exported_globals,omitempty"`
 }
 
@@ -355,6 +356,27 @@ func progTail(r *rand.Rand, n int) *prog {
 	return p
 }
 
+// progAllOps: one module with EVERY instruction wazero knows (package allops), each function called once: no
+// non-semantic option may change what any single instruction computes, traps with, or leaves in memory.
+func progAllOps() *prog {
+	bin, fns := allops.Module()
+	p := &prog{Kind: "allops", Name: "allops", Limit: 4, NFuncs: len(fns), Bin: bin, HasMem: true}
+	for k, f := range fns {
+		var args []uint64
+		for i, t := range f.Params {
+			n := 1
+			if t == wasm.ValueTypeV128 {
+				n = 2
+			}
+			for j := 0; j < n; j++ {
+				args = append(args, uint64(5+3*i+11*j+k%7))
+			}
+		}
+		p.Calls = append(p.Calls, call{fmt.Sprintf("op%d", k), args})
+	}
+	return p
+}
+
 func progDwarf() *prog {
 	return &prog{Kind: "dwarf", Name: "dwarf-zig", Bin: dwarftestdata.ZigWasm, Limit: 64, WASI: true, NFuncs: -1,
 		Calls: []call{{"_start", nil}}}
@@ -371,7 +393,7 @@ func programs(r *rand.Rand, thorough bool) []*prog {
 	for i := 0; i < reps; i++ {
 		ps = append(ps, progArith(r, i), progGlobals(r, i), progTable(r, i), progTraps(r, i), progHost(r, i), progRec(r, i, false))
 	}
-	ps = append(ps, progRec(r, 9, true), progTail(r, 0))
+	ps = append(ps, progRec(r, 9, true), progTail(r, 0), progAllOps())
 	// memory: declared max absent / below / at / above the limit
 	limit := uint32(5)
 	type mm struct {
